@@ -106,6 +106,39 @@ def w_variational_long(case, led):
                           {"vmethod": "2site", "start": "poor"}, rep)
 
 
+def w_compressed_sum(case, led):
+    """compressed_sum(list, temp_m_trunc=M) with M at least the ranks of the sum: the dense sum comes back unchanged - for one, two and several summands, whatever
+    truncation rule the summands carry themselves (default: a 1e-3 relative threshold) and however small some components are"""
+    _, name, n, seed, tier = case
+    from renormalizer.mps.lib import compressed_sum
+    rng = np.random.default_rng([seed, n, 416, sum(map(ord, name))])
+    model, _terms, sectors = Dn.hamiltonian(name, n, rng)
+    q = sectors[len(sectors) // 2]
+    for k in (1, 2, 3, 6):
+        for small in (1.0, 1e-5):
+            parts = []
+            for j in range(k):
+                big, weak = U.make_state(model, q, 2, rng, complex_=bool(j % 2)), U.make_state(model, q, 3, rng)
+                if big is None or weak is None:
+                    break
+                # every summand is itself "strong + small * weak": components far below the default threshold of the configs the summands carry
+                parts.append(big.add(weak.scale(small)))
+            if len(parts) != k:
+                continue
+            ref = sum(S.dense(p_) for p_ in parts)
+            for limit in (64, [64] * (n + 1)):
+                key = (name, n, seed, "compressed_sum", k, small, type(limit).__name__)
+                rep = {"model": name, "nsites": n, "sector": q, "n_summands": k, "small_component": small, "temp_m_trunc": "64" if isinstance(limit, int) else "[64]*(n+1)", "seed": seed}
+                try:
+                    r = compressed_sum([p_.copy() for p_ in parts], temp_m_trunc=limit)
+                except Exception as e:
+                    led.check(False, "post:compressed_sum:total", "compressed_sum", f"raised {type(e).__name__}: {e}", key, {"n_summands": k}, rep)
+                    continue
+                err = float(np.linalg.norm(S.dense(r) - ref))
+                led.check(err <= 1e-12 * max(1.0, float(np.linalg.norm(ref))), "post:compressed_sum:lossless_with_a_sufficient_limit", "compressed_sum",
+                          f"{k} summand(s), components of relative size {small}: the sum changed by {err:.2e} although the limit (64) exceeds every rank", key, {"n_summands": k, "small": small}, rep)
+
+
 def w_variational_wide_operator(case, led):
     """default start (guess=None: the routine compresses copies of operator and state to `vguess_m`) with an operator whose bonds exceed that start size: the
     result converges to the product, and neither the operator nor the state handed in is touched"""
@@ -375,6 +408,7 @@ def check(run):
              if not (name == "multi" and n < 2)]
     run_cases(run, worker, cases)
     run_cases(run, w_variational_long, [("vlong", 8, s, run.tier) for s in seeds] + ([("vlong", 7, s, run.tier) for s in seeds] if run.tier != "quick" else []))
+    run_cases(run, w_compressed_sum, [("csum", name_, n_, s, run.tier) for s in seeds for name_, n_ in (("spinqn", 5), ("holstein", 3), ("spin", 4))])
     run_cases(run, w_variational_wide_operator, [("vwide", 7, s, run.tier) for s in seeds] + ([("vwide", 8, s, run.tier) for s in seeds] if run.tier != "quick" else []))
     run.rule = ("states reachable by arithmetic {random, sums with redundant / rank-deficient bonds, H@a, product state, MPOs and MPO sums} x 1..4(5) sites "
                 "x both sweep directions x {full sweep, two sweeps, idempotence, every stop site incl. the current centre, lossless compress, "
